@@ -4,6 +4,7 @@ import Duckling.Lemmas.RBasic
 import Duckling.Lemmas.LexDigits
 import Duckling.Lemmas.LexName
 import Duckling.Lemmas.LexFlat
+import Duckling.Lemmas.LexFlatB
 /-
   C04 — expressions evaluate with the documented precedence and typing.
 
@@ -36,6 +37,9 @@ import Duckling.Lemmas.LexFlat
                                  another (`/` `//`, `<` `<=`, `>` `>=`) the keyword matcher reads on and decides at the next character; a number is
                                  closed by the operator's first character, which is then scanned again as an operator.  One lemma per kind of token,
                                  each for the scanner standing anywhere in the text (`Steps`), composed by induction over the pairs;
+  * `C04_flat_blanks`           **spacing**: blanks (any white-space characters, any number) before the first number, before and after every
+                                 operator and after the last number change nothing — the scanner produces exactly the tokens of the expression
+                                 written without blanks (`C04_layout_independent`), for flat arithmetic of any length;
   * `C04_flat_value`            **end to end**: `Tokenizer.tokenize` of such a text is the evaluation of the reference precedence parse (`refL`,
                                  Stage A) of those tokens — scanner, tree builder and evaluator composed.
   That the scanner recognises every rendering of a compound expression (operators, blanks, parentheses, strings, names) is validated
@@ -141,6 +145,20 @@ theorem C04_tokenize_digits (vars : VarEnv) (ds : Str) (hne : ds ≠ []) (hall :
 
 theorem C04_flat_tokens (vars : List Str) (ds : Str) (rest : FlatRest) (hds : GoodNum ds) (hrest : GoodRest rest) :
     lex vars (flatText ds rest) = .ok (flatToks ds rest) := lex_flat vars ds rest hds hrest
+
+theorem C04_flat_blanks (vars : List Str) (lead ds : Str) (rest : FlatRestB) (trail : Str) (hlead : AllSp lead) (htrail : AllSp trail)
+    (hds : GoodNum ds) (hrest : GoodRestB rest) :
+    lex vars (flatTextB lead ds rest trail) = .ok (flatToks ds (plainOf rest)) := lex_flatB vars lead ds rest trail hlead htrail hds hrest
+
+/-- the token list does not depend on the layout of blanks -/
+theorem C04_layout_independent (vars : List Str) (lead ds : Str) (rest : FlatRestB) (trail : Str) (hlead : AllSp lead) (htrail : AllSp trail)
+    (hds : GoodNum ds) (hrest : GoodRestB rest) :
+    lex vars (flatTextB lead ds rest trail) = lex vars (flatText ds (plainOf rest)) := by
+  rw [lex_flatB vars lead ds rest trail hlead htrail hds hrest, lex_flat vars ds (plainOf rest) hds]
+  intro t ht
+  simp only [plainOf, List.mem_map] at ht
+  obtain ⟨u, hu, rfl⟩ := ht
+  exact ⟨(hrest u hu).2.1, (hrest u hu).2.2.2⟩
 
 theorem flatPairs_opsIn (rest : FlatRest) (hrest : GoodRest rest) : OpsIn ranks (flatPairs rest) := by
   intro o ho
